@@ -36,13 +36,13 @@ theorem pantr_exit_contract (co : Consts α) (P : Problem α) (dir : Direction D
     (hfuel : (run co P dir d0 pr stop oot x0 y Sig errz0 gV).fuelOut = false) :
     ExitOK P x0 y Sig errz0 (run co P dir d0 pr stop oot x0 y Sig errz0 gV) := by
   unfold run at hfuel ⊢
-  cases hi : initState co P d0 pr x0 gV with
+  cases hi : initState co P d0 pr stop x0 gV with
   | inl t =>
     simp only [hi] at hfuel ⊢
     exact ⟨fun h => absurd h (by simp), fun _ => ⟨rfl, rfl, rfl⟩⟩
   | inr s =>
     simp only [hi] at hfuel ⊢
-    exact mainLoop_ok co P dir pr stop oot x0 y Sig errz0 _ s (initState_good co P d0 pr x0 gV s hi).1 hfuel
+    exact mainLoop_ok co P dir pr stop oot x0 y Sig errz0 _ s (initState_good co P d0 pr stop x0 gV s hi).1 hfuel
 
 /-- When are the outputs overwritten: exactly on `Converged`, `Interrupted`, or with
     `always_overwrite_results` — and never on the early `NotFinite` return (non-finite Lipschitz
@@ -55,13 +55,13 @@ theorem pantr_wrote_iff (co : Consts α) (P : Problem α) (dir : Direction D α)
          (run co P dir d0 pr stop oot x0 y Sig errz0 gV).stats.status == .Interrupted ||
          pr.alwaysOverwrite)) := by
   unfold run
-  cases hi : initState co P d0 pr x0 gV with
+  cases hi : initState co P d0 pr stop x0 gV with
   | inl t => simp
   | inr s =>
     simp only []
     obtain ⟨s', -, -, -, -, he⟩ := mainLoop_exit_at_head co P dir pr stop oot x0 y Sig errz0
-      (pr.maxIter + 1) s (by rw [(initState_good co P d0 pr x0 gV s hi).2.2.1]; omega) (by omega)
-      (initState_good co P d0 pr x0 gV s hi).1
+      (pr.maxIter + 1) s (by rw [(initState_good co P d0 pr stop x0 gV s hi).2.2.1]; omega) (by omega)
+      (initState_good co P d0 pr stop x0 gV s hi).1
     rw [he]
     have hf := exitBlock_fields co pr (headStep P pr stop oot s').1 (headStep P pr stop oot s').2.1
       (headStep P pr stop oot s').2.2 x0 y Sig errz0
@@ -111,15 +111,15 @@ theorem pantr_reported_iterates_consistent (co : Consts α) (P : Problem α) (di
     (hfuel : (run co P dir d0 pr stop oot x0 y Sig errz0 gV).fuelOut = false) :
     ∀ cb ∈ (run co P dir d0 pr stop oot x0 y Sig errz0 gV).callbacks, Good P cb.it := by
   unfold run at hfuel ⊢
-  cases hi : initState co P d0 pr x0 gV with
+  cases hi : initState co P d0 pr stop x0 gV with
   | inl t => simp
   | inr s =>
     simp only [hi] at hfuel ⊢
-    have hs := initState_good co P d0 pr x0 gV s hi
+    have hs := initState_good co P d0 pr stop x0 gV s hi
     have hc : s.cbs = [] := hs.2.2.2
     intro cb hmem
-    exact (mainLoop_callbacks co P dir pr stop oot x0 y Sig errz0 _ s hs.1 hs.2.1
-      (by rw [hc]; simp) hfuel cb hmem).1
+    exact mainLoop_callbacks_good co P dir pr stop oot x0 y Sig errz0 _ s hs.1
+      (by rw [hc]; simp) hfuel cb hmem
 
 /-! ### Non-vacuity (closed instance `Proofs/PantrExample.lean`; the replay driver exercises the same
     hypotheses on every recorded run of the real solver) -/
